@@ -283,6 +283,10 @@ template <typename D> struct DomObj : Obj {
     else if (q == "constrains") ANSB(x.constrains(Variable(tk.nextl())));
     else if (q == "relation_with_con") print_rel(x.relation_with(read_con(tk, dim)));
     else if (q == "relation_with_cg") print_rel(x.relation_with(read_cg(tk, dim)));
+    // arguments of SMALLER space dimension than the shape (arity k given explicitly)
+    else if (q == "relation_with_con_n") { unsigned k = tk.nextl(); print_rel(x.relation_with(read_con(tk, k))); }
+    else if (q == "relation_with_cg_n") { unsigned k = tk.nextl(); print_rel(x.relation_with(read_cg(tk, k))); }
+    else if (q == "relation_with_gen_n") { unsigned k = tk.nextl(); Poly_Gen_Relation r = x.relation_with(read_gen(tk, k)); std::cout << "ans b " << (r.implies(Poly_Gen_Relation::subsumes()) ? 1 : 0) << "\n"; }
     else if (q == "relation_with_gen") { Poly_Gen_Relation r = x.relation_with(read_gen(tk, dim)); std::cout << "ans b " << (r.implies(Poly_Gen_Relation::subsumes()) ? 1 : 0) << "\n"; }
     else if (q == "bounds_from_above" || q == "bounds_from_below") { mpz_class b; Linear_Expression e = read_expr_n(tk, b);
       ANSB(q == "bounds_from_above" ? x.bounds_from_above(e) : x.bounds_from_below(e)); }
